@@ -65,8 +65,7 @@ def run(run_, ctx):
             continue
         s = f.impl_self or ""
         if (c03.is_deser_self(s) and f.impl_trait in (c03.DE_TRAIT, "serde_core::de::VariantAccess", "serde_core::de::EnumAccess")) or \
-                (s.startswith("de::deserializer::SeqAccess<") and f.impl_trait == "serde_core::de::SeqAccess") or \
-                (s.startswith("de::deserializer::MapAccess<") and f.impl_trait == "serde_core::de::MapAccess"):
+                c03.is_access_impl(f):
             if f.name != "size_hint":
                 c03.check_method(sub, F, helpers, f)
         if s == c02.SELF_TY and f.impl_trait == c02.SER_TRAIT:
